@@ -235,22 +235,18 @@ theorem findIdx_none_of_not_mem (ids : List Nat) (h : Nat) (hn : h ∉ ids) :
 
 /-! ### closed task handler: the same list updates, nothing queued -/
 
+/-- as the source is now, the refused call is the LAST state-changing statement of `add_custom`: cut there, the
+    lists are those of the open version, nothing is queued, and the refusal leaves exactly when a trigger was built -/
 theorem addCustomRefused_eq (v : Svc) (b : Option Trig) :
-    addCustomRefused v b = ({ (addCustom v b).1 with queued := v.queued }, (addCustom v b).2) := by
+    addCustomRefused v b =
+      ({ (addCustom v b).1 with queued := v.queued }, if b.isSome then none else some (addCustom v b).2) := by
   cases b <;> rfl
 
 theorem removeCustomRefused_eq (v : Svc) (h : Handle) :
-    removeCustomRefused v h = { removeCustom v h with queued := v.queued } := by
+    removeCustomRefused v h =
+      ({ removeCustom v h with queued := v.queued }, (v.customIds.findIdx? (fun x => x == h)).isSome) := by
   unfold removeCustomRefused removeCustom
   cases List.findIdx? (fun tp_id => tp_id == h) v.customIds <;> rfl
-
-theorem registerSubmits_eq (v : Svc) (b : Option Trig) : registerSubmits v b = b.isSome := by
-  cases b <;> simp [registerSubmits, addCustom, triggerUpdate]
-
-theorem unregisterSubmits_eq (v : Svc) (h : Handle) :
-    unregisterSubmits v h = (v.customIds.findIdx? (fun x => x == h)).isSome := by
-  unfold unregisterSubmits removeCustom
-  cases List.findIdx? (fun tp_id => tp_id == h) v.customIds <;> simp [triggerUpdate]
 
 theorem wf_queued (v : Svc) (q : List ApplyTask) (w : Wf v) : Wf { v with queued := q } := ⟨w.1, w.2, w.3⟩
 
